@@ -23,7 +23,7 @@ func init() {
 			return 2
 		}
 		defer os.RemoveAll(scratch)
-		states, trans, err := c14.Run(r, tier, self, filepath.Join(ev.Root, "harness"), scratch)
+		states, trans, err := c14.Run(r, tier, self, filepath.Join(filepath.Dir(filepath.Dir(self)), "harness"), scratch)
 		if err != nil {
 			fmt.Println("HARNESS-ERROR: C14:", err)
 			return 2
